@@ -158,7 +158,14 @@ class T:
             h, l = x.params(); n = h - l + 1
             y = s.push_extract(ch[0], h, l)
             if y is not None: return s.bv(y)
+            cop = ch[0].decl().kind()
+            if cop in (Z3_OP_BAND, Z3_OP_BOR, Z3_OP_BXOR, Z3_OP_BNOT) and n < ch[0].size() and not any(z3.is_bv_value(c) for c in ch[0].children()):
+                # a bit field of a bitwise operation is the bitwise operation of the bit fields (exact); single bits are then encoded as booleans
+                sub = [z3.Extract(h, l, c) for c in ch[0].children()]
+                return s.bv(~sub[0] if cop == Z3_OP_BNOT else s._nary(cop, sub))
             a, alo, ahi = s.bv(ch[0])
+            if n == 1 and l == ch[0].size() - 1 and not z3.is_int_value(a) and ahi < (1 << ch[0].size()):
+                return z3.If(a >= (1 << l), z3.IntVal(1), z3.IntVal(0)), 0, 1        # the top bit of a word is a comparison
             if ahi < (1 << l): return z3.IntVal(0), 0, 0
             if l == 0 and ahi < (1 << n): return a, alo, ahi
             if l % 32 == 0 and (h + 1) % 32 == 0 and not z3.is_int_value(a) and ahi >= (1 << 32) and ch[0].size() >= s.limb_min:
@@ -258,9 +265,39 @@ class T:
             if b[1] <= 0: return z3.If(b[0] == 0, a[0], a[0] % b[0]), 0, a[2]
             return a[0] % b[0], 0, min(a[2], b[2] - 1)
         raise NotImplementedError(str(x.decl()))
+    def signtest(s, op, ch):
+        """(x, True) if the signed comparison says x < 0, (x, False) if it says x >= 0, None if it is not a sign test"""
+        a, b = ch; w = a.size(); m1 = (1 << w) - 1
+        if z3.is_bv_value(b) and not z3.is_bv_value(a):
+            v = b.as_long()
+            if v == 0 and op == Z3_OP_SLT: return a, True
+            if v == 0 and op == Z3_OP_SGEQ: return a, False
+            if v == m1 and op == Z3_OP_SLEQ: return a, True
+            if v == m1 and op == Z3_OP_SGT: return a, False
+        if z3.is_bv_value(a) and not z3.is_bv_value(b):
+            v = a.as_long()
+            if v == 0 and op == Z3_OP_SGT: return b, True
+            if v == 0 and op == Z3_OP_SLEQ: return b, False
+            if v == m1 and op == Z3_OP_SGEQ: return b, True
+            if v == m1 and op == Z3_OP_SLT: return b, False
+        return None
+    def _nary(s, cop, sub):
+        r = sub[0]
+        for t in sub[1:]: r = (r & t) if cop == Z3_OP_BAND else (r | t) if cop == Z3_OP_BOR else (r ^ t)
+        return r
+    def bit1(s, ch, op):
+        """and/or/xor of single bits: exact"""
+        es = [s.bv(c)[0] for c in ch]
+        if op == 'and': c = z3.And([e == 1 for e in es])
+        elif op == 'or': c = z3.Or([e == 1 for e in es])
+        else:
+            c = (es[0] == 1)
+            for e in es[1:]: c = z3.Xor(c, e == 1)
+        return z3.If(c, z3.IntVal(1), z3.IntVal(0)), 0, 1
     def bitop_approx(s, x, ch, op):
         """bitwise and/or/xor of overlapping symbolic words: a fresh integer constrained by facts that hold for the exact operation
            (a sound over-approximation: 'unsat' stays valid, a 'sat' model is re-validated by exact evaluation / replay)"""
+        if x.size() == 1: return s.bit1(ch, op)
         w = x.size(); M = 1 << w; es = [s.bv(c) for c in ch]; v = s.fresh('bit' + op); s.approx = getattr(s, 'approx', 0) + 1
         vals = [e for e, _, _ in es]
         cons = [v >= 0, v < M]
@@ -310,6 +347,9 @@ class T:
         elif op == Z3_OP_EQ and z3.is_bool(ch[0]): r = (s.bool(ch[0]) == s.bool(ch[1]))
         elif op in (Z3_OP_ULT, Z3_OP_ULEQ, Z3_OP_UGT, Z3_OP_UGEQ):
             a = s.bv(ch[0])[0]; b = s.bv(ch[1])[0]; r = {Z3_OP_ULT: a < b, Z3_OP_ULEQ: a <= b, Z3_OP_UGT: a > b, Z3_OP_UGEQ: a >= b}[op]
+        elif op in (Z3_OP_SLT, Z3_OP_SLEQ, Z3_OP_SGT, Z3_OP_SGEQ) and ch[0].size() > 1 and s.signtest(op, ch) is not None:
+            # sign test: the top bit (exact also when the word is a bitwise combination)
+            x_, neg = s.signtest(op, ch); top = s.bv(z3.Extract(x_.size() - 1, x_.size() - 1, x_))[0]; r = (top == 1) if neg else (top == 0)
         elif op in (Z3_OP_SLT, Z3_OP_SLEQ, Z3_OP_SGT, Z3_OP_SGEQ):
             w = ch[0].size(); a = s.signed(s.bv(ch[0])[0], w); b = s.signed(s.bv(ch[1])[0], w); r = {Z3_OP_SLT: a < b, Z3_OP_SLEQ: a <= b, Z3_OP_SGT: a > b, Z3_OP_SGEQ: a >= b}[op]
         elif op == Z3_OP_UNINTERPRETED and not ch: r = x
